@@ -305,8 +305,18 @@ impl Node {
     }
 
     pub fn tcp_root(&self) -> Result<TcpClient, IggyError> {
+        self.tcp_login("iggy", "iggy")
+    }
+
+    pub fn tcp_login(&self, user: &str, password: &str) -> Result<TcpClient, IggyError> {
         let c = self.tcp_client()?;
-        self.rt.block_on(async { c.login_user("iggy", "iggy").await })?;
+        self.rt.block_on(async { c.login_user(user, password).await })?;
+        Ok(c)
+    }
+
+    pub fn http_login(&self, user: &str, password: &str) -> Result<HttpClient, IggyError> {
+        let c = self.http_client()?;
+        self.rt.block_on(async { c.login_user(user, password).await })?;
         Ok(c)
     }
 
